@@ -373,6 +373,160 @@ theorem sepBy_leading_separator_witness : ¬ SepByHasNoLeadingSeparator := by
   have := h _ _ _ _ _ _ _ hs hfail1
   omega
 
+/-! ### the operators that build grammars: `x + y`, `x | y` for every grouping of the operands
+
+`plus` / `alt` (IV/Model/Peg.lean) are what `+` / `|` BUILD in the unchanged code: a Sequence
+(Choice) on the LEFT accumulates the right operand, anything else — a Sequence (Choice) on the
+right included — becomes ONE child of a new two-element node. -/
+
+/-- the terms the two groupings of `a + b + c` build (for operands that are not themselves
+Sequences): `(a + b) + c` is the flat three-element Sequence, `a + (b + c)` keeps the inner
+Sequence as ONE child -/
+theorem plus_grouping_terms (a b c : Term) (ha : a.isSeq = false) (hb : b.isSeq = false) :
+    plus (plus a b) c = .seq [a, b, c] ∧ plus a (plus b c) = .seq [a, .seq [b, c]] := by
+  rw [plus_of_not_seq b ha, plus_of_not_seq c hb, plus_of_not_seq _ ha]
+  exact ⟨rfl, rfl⟩
+
+/-- `x + y` is `x` then `y`, for every `x` and `y`; its value is `x`'s list extended by `y`'s
+value when `x` is a Sequence, and the two-element list `[x's value, y's value]` otherwise — so a
+Sequence on the RIGHT contributes its own list as one element -/
+theorem plus_value_shape (rules : List Term) (inp : Str) (x y : Term) (pos p q : Nat) (v w : Val)
+    (h1 : Ev rules inp x pos (.ok p v)) (h2 : Ev rules inp y p (.ok q w)) :
+    Ev rules inp (plus x y) pos
+      (.ok q (match x, v with | .seq _, .list vs => .list (vs ++ [w]) | _, _ => .list [v, w])) :=
+  plus_ok h1 h2
+
+/-- … and these are all its outcomes (with `plus_value_shape`: an exact characterisation) -/
+theorem plus_outcomes (rules : List Term) (inp : Str) (x y : Term) (pos : Nat) (r : Res)
+    (h : Ev rules inp (plus x y) pos r) :
+    (∃ p v q w, Ev rules inp x pos (.ok p v) ∧ Ev rules inp y p (.ok q w) ∧
+        r = .ok q (match x, v with | .seq _, .list vs => .list (vs ++ [w]) | _, _ => .list [v, w])) ∨
+    (r = .fail ∧ (Ev rules inp x pos .fail ∨ ∃ p v, Ev rules inp x pos (.ok p v) ∧ Ev rules inp y p .fail)) :=
+  plus_inv h
+
+/-- `+` preserves the LANGUAGE of plain sequencing: `x + y` accepts (and ends) exactly where
+`Sequence([x, y])` does, and rejects exactly where it rejects — only the value's nesting differs -/
+theorem plus_preserves_language (rules : List Term) (inp : Str) (x y : Term) (pos : Nat) :
+    (∀ q, (∃ v, Ev rules inp (plus x y) pos (.ok q v)) ↔ (∃ v, Ev rules inp (.seq [x, y]) pos (.ok q v))) ∧
+    (Ev rules inp (plus x y) pos .fail ↔ Ev rules inp (.seq [x, y]) pos .fail) := by
+  refine ⟨fun q => ⟨?_, ?_⟩, ⟨?_, ?_⟩⟩
+  · rintro ⟨v, h⟩
+    rcases plus_inv h with ⟨p, v1, q', w, h1, h2, h3⟩ | ⟨h0, _⟩
+    · obtain ⟨rfl, -⟩ := Res.ok.inj h3
+      exact ⟨_, .seqCons h1 (.seqCons h2 .seqNil)⟩
+    · cases h0
+  · rintro ⟨v, h⟩
+    rcases ev_pair_inv h with ⟨p, v1, q', w, h1, h2, h3⟩ | ⟨h0, _⟩
+    · obtain ⟨rfl, -⟩ := Res.ok.inj h3
+      exact ⟨_, plus_ok h1 h2⟩
+    · cases h0
+  · intro h
+    rcases plus_inv h with ⟨p, v1, q', w, _, _, h3⟩ | ⟨_, h1 | ⟨p, v, h1, h2⟩⟩
+    · cases h3
+    · exact .seqFailHead h1
+    · exact .seqFailTail h1 (.seqFailHead h2)
+  · intro h
+    rcases ev_pair_inv h with ⟨p, v1, q', w, _, _, h3⟩ | ⟨_, h1 | ⟨p, v, h1, h2⟩⟩
+    · cases h3
+    · exact plus_fail_left h1
+    · exact plus_fail_right h1 h2
+
+/-- the VALUES of the two groupings, exactly as documented: on an input where `a`, `b`, `c` match
+in turn, `(a + b) + c` returns `[va, vb, vc]` and `a + (b + c)` returns `[va, [vb, vc]]` — same end
+position, different nesting, and the two values are never equal -/
+theorem plus_grouping_values (rules : List Term) (inp : Str) (a b c : Term) (ha : a.isSeq = false)
+    (hb : b.isSeq = false) (pos p₁ p₂ p₃ : Nat) (va vb vc : Val) (h1 : Ev rules inp a pos (.ok p₁ va))
+    (h2 : Ev rules inp b p₁ (.ok p₂ vb)) (h3 : Ev rules inp c p₂ (.ok p₃ vc)) :
+    Ev rules inp (plus (plus a b) c) pos (.ok p₃ (.list [va, vb, vc])) ∧
+    Ev rules inp (plus a (plus b c)) pos (.ok p₃ (.list [va, .list [vb, vc]])) ∧
+    Val.list [va, vb, vc] ≠ Val.list [va, .list [vb, vc]] := by
+  obtain ⟨e1, e2⟩ := plus_grouping_terms a b c ha hb
+  rw [e1, e2]
+  refine ⟨.seqCons h1 (.seqCons h2 (.seqCons h3 .seqNil)),
+    .seqCons h1 (.seqCons (.seqCons h2 (.seqCons h3 .seqNil)) .seqNil), by simp⟩
+
+/-- the LANGUAGE does not depend on the grouping, for arbitrary operands (Sequences included):
+both groupings accept with the same end position, and both reject, on exactly the same inputs -/
+theorem plus_grouping_language (rules : List Term) (inp : Str) (a b c : Term) (pos : Nat) :
+    (∀ q, (∃ v, Ev rules inp (plus (plus a b) c) pos (.ok q v)) ↔ (∃ v, Ev rules inp (plus a (plus b c)) pos (.ok q v))) ∧
+    (Ev rules inp (plus (plus a b) c) pos .fail ↔ Ev rules inp (plus a (plus b c)) pos .fail) := by
+  refine ⟨fun q => ⟨?_, ?_⟩, ⟨?_, ?_⟩⟩
+  · rintro ⟨v, h⟩
+    rcases plus_inv h with ⟨p, v1, q', w, h1, h2, h3⟩ | ⟨h0, _⟩
+    · obtain ⟨rfl, -⟩ := Res.ok.inj h3
+      rcases plus_inv h1 with ⟨p1, va, p', vb, ha, hb, h3'⟩ | ⟨h0, _⟩
+      · obtain ⟨rfl, -⟩ := Res.ok.inj h3'
+        exact ⟨_, plus_ok ha (plus_ok hb h2)⟩
+      · cases h0
+    · cases h0
+  · rintro ⟨v, h⟩
+    rcases plus_inv h with ⟨p, va, q', w, ha, h2, h3⟩ | ⟨h0, _⟩
+    · obtain ⟨rfl, -⟩ := Res.ok.inj h3
+      rcases plus_inv h2 with ⟨p1, vb, p', vc, hb, hc, h3'⟩ | ⟨h0, _⟩
+      · obtain ⟨rfl, -⟩ := Res.ok.inj h3'
+        exact ⟨_, plus_ok (plus_ok ha hb) hc⟩
+      · cases h0
+    · cases h0
+  · intro h
+    rcases plus_inv h with ⟨_, _, _, _, _, _, h3⟩ | ⟨_, h1 | ⟨p, v, h1, h2⟩⟩
+    · cases h3
+    · rcases plus_inv h1 with ⟨_, _, _, _, _, _, h3⟩ | ⟨_, ha | ⟨p1, va, ha, hb⟩⟩
+      · cases h3
+      · exact plus_fail_left ha
+      · exact plus_fail_right ha (plus_fail_left hb)
+    · rcases plus_inv h1 with ⟨p1, va, p', vb, ha, hb, h3'⟩ | ⟨h0, _⟩
+      · obtain ⟨rfl, -⟩ := Res.ok.inj h3'
+        exact plus_fail_right ha (plus_fail_right hb h2)
+      · cases h0
+  · intro h
+    rcases plus_inv h with ⟨_, _, _, _, _, _, h3⟩ | ⟨_, ha | ⟨p, va, ha, h2⟩⟩
+    · cases h3
+    · exact plus_fail_left (plus_fail_left ha)
+    · rcases plus_inv h2 with ⟨_, _, _, _, _, _, h3⟩ | ⟨_, hb | ⟨p1, vb, hb, hc⟩⟩
+      · cases h3
+      · exact plus_fail_left (plus_fail_right ha hb)
+      · exact plus_fail_right (plus_ok ha hb) hc
+
+/-- `|` preserves language AND values: `x | y` has exactly the outcomes of `Choice([x, y])` -/
+theorem alt_preserves_values (rules : List Term) (inp : Str) (x y : Term) (pos : Nat) (r : Res) :
+    Ev rules inp (alt x y) pos r ↔ Ev rules inp (.choice [x, y]) pos r :=
+  alt_iff.trans ev_choice_pair.symm
+
+/-- both groupings of `a | b | c` have exactly the same outcomes, values included, for arbitrary
+operands: the first of `a`, `b`, `c` that matches decides -/
+theorem alt_grouping (rules : List Term) (inp : Str) (a b c : Term) (pos : Nat) (r : Res) :
+    Ev rules inp (alt (alt a b) c) pos r ↔ Ev rules inp (alt a (alt b c)) pos r := by
+  simp only [alt_iff, Res.isOk]
+  constructor
+  · rintro (⟨hok, ⟨_, ha⟩ | ⟨ha, hb⟩⟩ | ⟨⟨h0, _⟩ | ⟨ha, hb⟩, hc⟩)
+    · exact .inl ⟨hok, ha⟩
+    · exact .inr ⟨ha, .inl ⟨hok, hb⟩⟩
+    · simp at h0
+    · exact .inr ⟨ha, .inr ⟨hb, hc⟩⟩
+  · rintro (⟨hok, ha⟩ | ⟨ha, ⟨hok, hb⟩ | ⟨hb, hc⟩⟩)
+    · exact .inl ⟨hok, .inl ⟨hok, ha⟩⟩
+    · exact .inl ⟨hok, .inr ⟨ha, hb⟩⟩
+    · exact .inr ⟨.inr ⟨ha, hb⟩, hc⟩
+
+/-- hence flattening a Choice on the RIGHT (which `|` does not do) would change the built term
+but no outcome: `Choice([a, Choice([b, c])])` and `Choice([a, b, c])` are indistinguishable by
+values — unlike the Sequence case (`plus_grouping_values`) -/
+theorem choice_nesting_invisible (rules : List Term) (inp : Str) (a b c : Term) (pos : Nat) (r : Res) :
+    Ev rules inp (.choice [a, .choice [b, c]]) pos r ↔ Ev rules inp (.choice [a, b, c]) pos r := by
+  have h1 : Ev rules inp (.choice [a, b, c]) pos r ↔ Ev rules inp (.choice ([a, b] ++ [c])) pos r := by simp
+  rw [h1, ev_choice_snoc]
+  simp only [ev_choice_pair, Res.isOk]
+  constructor
+  · rintro (⟨hok, ha⟩ | ⟨ha, ⟨hok, hb⟩ | ⟨hb, hc⟩⟩)
+    · exact .inl ⟨hok, .inl ⟨hok, ha⟩⟩
+    · exact .inl ⟨hok, .inr ⟨ha, hb⟩⟩
+    · exact .inr ⟨.inr ⟨ha, hb⟩, hc⟩
+  · rintro (⟨hok, ⟨_, ha⟩ | ⟨ha, hb⟩⟩ | ⟨⟨h0, _⟩ | ⟨ha, hb⟩, hc⟩)
+    · exact .inl ⟨hok, ha⟩
+    · exact .inr ⟨ha, .inl ⟨hok, hb⟩⟩
+    · simp at h0
+    · exact .inr ⟨ha, .inr ⟨hb, hc⟩⟩
+
 /-! ### non-vacuity -/
 
 example : RulesTagFree [] := by intro i t h; simp at h
@@ -389,6 +543,14 @@ example : WellFormed [.choice [.seq [chr 'a', .ref 0, chr 'b'], chr 'c']] (.keep
 example : WellFormed [.choice [.seq [.ref 0, chr 'b'], chr 'c']] (.ref 0) = false := by decide
 example : WellFormed [] (.many (.opt (chr 'a') .none) 0) = false := by decide
 example : bound [.choice [.seq [chr 'a', .ref 0, chr 'b'], chr 'c']] (.keepLeft (.ref 0) (.prim .eof)) 3 = 59 := by decide
+/-- `a + (b + c)` on "abc": the hypotheses of plus_grouping_values are met by concrete derivations -/
+example : Ev [] ['a', 'b', 'c'] (plus (chr 'a') (plus (chr 'b') (chr 'c'))) 0
+    (.ok 3 (.list [.str ['a'], .list [.str ['b'], .str ['c']]])) := by
+  have hc : ∀ (c : Char) (pos : Nat), (['a', 'b', 'c'] : Str)[pos]? = some c →
+      Ev [] ['a', 'b', 'c'] (chr c) pos (.ok (pos + 1) (.str [c])) := fun c pos hh => .primOk (by simp [Prim.run, hh])
+  exact (plus_grouping_values [] _ (chr 'a') (chr 'b') (chr 'c') rfl rfl 0 1 2 3 _ _ _ (hc 'a' 0 rfl) (hc 'b' 1 rfl)
+    (hc 'c' 2 rfl)).2.1
+example : (Term.seq [chr 'a']).isSeq = true ∧ (chr 'a').isSeq = false := ⟨rfl, rfl⟩
 example : (tagGrammar true).tagFree = false := by simp [tagGrammar, Term.tagFree, Term.tagFreeL]
 
 end IV.Peg
